@@ -24,10 +24,12 @@ CONSTANTS MaxOrd,        \* pod ordinals 0..MaxOrd
           Policies, Strats,          \* initial choices, e.g. {"OrderedReady","Parallel"}, {"RollingUpdate","OnDelete"}
           Edits, Faults, Fails,      \* budgets: user edits, injected API faults, kubelet-side failures
           MaxFaultPos,               \* injected faults hit plan positions 1..MaxFaultPos (or list calls 1..4)
+          QueueDriven,               \* TRUE: the controller reconciles only when its work queue holds the key (no resync)
+          ClaimCounts,               \* how many volume claim templates the set may have: a subset of {0, 1} (the template is "c0")
           InitMode                   \* "empty": start from an empty cluster; "any": first scramble the pods into any state
 
-VARIABLES api,      \* [set, pods, revs, clock]  the truth
-          cache,    \* [set, pods]               what the informers show
+VARIABLES api,      \* [set, pods, revs, pvcs, clock]  the truth (pvcs: names of the claims that exist)
+          cache,    \* [set, pods, pvcs, queued]       what the informers show; queued: the set's key is in the work queue
           budget,   \* [edits, faults, fails]
           last,     \* what the last step was (output only; hidden by the VIEW of exhaustive runs)
           lvl       \* 0..MaxOrd: pod lvl is still to be scrambled (InitMode "any"); MaxOrd+1: the system runs
@@ -36,6 +38,7 @@ vars == <<api, cache, budget, last, lvl>>
 Ords   == 0..MaxOrd
 Absent == [present |-> FALSE, phase |-> "", ready |-> FALSE, term |-> FALSE, rev |-> "", owner |-> "", uid |-> 0]   \* uid: incarnation
 NAME   == "foo"
+ClaimOf(o) == "c0-" \o NAME \o "-" \o ToString(o)      \* the claim of ordinal o (claim template "c0")
 
 ---------------------------------------------------------------------------------------
 (* projections to the snapshot records of Reconcile.tla                                *)
@@ -52,12 +55,12 @@ PodSeqOf(pods) == PodSeqOf2(pods, pods)
 SetRecOf(s) == [name |-> NAME, cached |-> TRUE, replicas |-> s.replicas, slots |-> s.slots, policy |-> s.policy, strat |-> s.strat,
                 ruBlock |-> s.strat = "RollingUpdate", partPresent |-> s.strat = "RollingUpdate", part |-> s.part,
                 tmpl |-> s.tmpl, paused |-> s.paused, deleting |-> s.deleting, histLimit |-> s.histLimit, selectorOK |-> TRUE,
-                gen |-> s.gen, status |-> s.status, claims |-> <<>>]
+                gen |-> s.gen, status |-> s.status, claims |-> IF s.nclaims = 1 THEN <<"c0">> ELSE <<>>]
 
 \* the snapshot a reconcile reads in state s = [api, cache], with the adversary's faults fs
-SnapS(s, fs) == [set   |-> SetRecOf(s.cache.set), pods |-> PodSeqOf2(s.cache.pods, s.api.pods), revs |-> s.api.revs, pvcs |-> {},
+SnapS(s, fs) == [set   |-> SetRecOf(s.cache.set), pods |-> PodSeqOf2(s.cache.pods, s.api.pods), revs |-> s.api.revs, pvcs |-> s.cache.pvcs,
                  fresh |-> [exists |-> TRUE, sameUid |-> TRUE, deleting |-> s.api.set.deleting, rvSame |-> s.api.set.rv = s.cache.set.rv],
-                 apods |-> ApiFromCache(PodSeqOf(s.api.pods)), apvcs |-> {}, faults |-> fs, cacheIntact |-> TRUE]
+                 apods |-> ApiFromCache(PodSeqOf(s.api.pods)), apvcs |-> s.api.pvcs, faults |-> fs, cacheIntact |-> TRUE]
 
 ---------------------------------------------------------------------------------------
 (* effect of API calls on the truth (the semantics MiniAPI implements)                 *)
@@ -74,6 +77,7 @@ ApplyCall(a, c) ==
                                    uid |-> a.clock],
                       !.clock = @ + 1]
        ELSE a
+  ELSE IF IsClaimCall(c) /\ Verb(c) = "create" THEN [a EXCEPT !.pvcs = @ \cup {Name(c)}]
   ELSE IF IsPodDelete(c) THEN
        LET o == OrdOfName(Name(c)) IN
        IF o \notin Ords \/ ~a.pods[o].present THEN a
@@ -129,14 +133,26 @@ InRange(r, S) == Desired(r, S) \subseteq Ords
 (* s = [api, cache] and Effect(s, a) is the state it leads to.  They are pure operators, so the same definitions   *)
 (* drive TLC (below) and judge executions recorded from the real system (TraceCluster.tla).                        *)
 
+\* The informer event handlers (stateful_set.go addPod / updatePod / deletePod; Handlers.tla has the full decision table)
+\* for the one set of this model, whose selector every pod matches: does the event that turns the cached pod `old` into
+\* `new` put the set's key on the queue?
+PodEventEnq(old, new) ==
+  IF old = new THEN FALSE
+  ELSE IF ~old.present THEN (IF new.term THEN new.owner = "self" ELSE new.owner \in {"self", "none"})        \* add
+  ELSE IF ~new.present THEN old.owner = "self"                                                                \* delete
+  ELSE LET refChanged == old.owner # new.owner IN                                                            \* update
+       (refChanged /\ old.owner = "self") \/ new.owner = "self" \/ (new.owner = "none" /\ refChanged)
+Q(v) == IF QueueDriven THEN v ELSE FALSE
+
 Bump(set, specChange) == [set EXCEPT !.rv = @ + 1, !.gen = IF specChange THEN @ + 1 ELSE @]
 DeleteOf(p) == IF p.phase \in {"Failed", "Succeeded", "Pending"} THEN Absent ELSE [p EXCEPT !.term = TRUE]   \* the API server's grace rule
 
 Guard(s, a) ==
   LET api_ == s.api pod == IF "o" \in DOMAIN a THEN api_.pods[a.o] ELSE Absent IN
-  CASE a.act = "Reconcile"         -> TRUE
+  CASE a.act = "Reconcile"         -> QueueDriven => s.cache.queued
     [] a.act = "SyncSetCache"      -> s.cache.set # api_.set
     [] a.act = "SyncPodCache"      -> s.cache.pods # api_.pods
+    [] a.act = "SyncPvcCache"      -> s.cache.pvcs # api_.pvcs
     [] a.act = "PodRunning"        -> pod.present /\ pod.phase = "Pending" /\ ~pod.term
     [] a.act = "PodReady"          -> pod.present /\ pod.phase = "Running" /\ ~pod.ready
     [] a.act = "FinishTerminating" -> pod.present /\ pod.term
@@ -162,9 +178,14 @@ Effect(s, a) ==
          LET sn == SnapS(s, a.faults)
              r  == Sync(sn)
              a2 == ApplyCalls(api_, r.calls, 1) IN
-         [api |-> a2, cache |-> IF r.res = "died" THEN [set |-> a2.set, pods |-> a2.pods] ELSE s.cache]   \* a restarted controller re-lists
-    [] a.act = "SyncSetCache"      -> [s EXCEPT !.cache.set = api_.set]
-    [] a.act = "SyncPodCache"      -> [s EXCEPT !.cache.pods = api_.pods]
+         \* a restarted controller re-lists (and the listed set arrives as an add event); a failed reconcile is put back
+         \* (rate limited), a successful one leaves the queue empty
+         [api |-> a2, cache |-> IF r.res = "died" THEN [set |-> a2.set, pods |-> a2.pods, pvcs |-> a2.pvcs, queued |-> Q(TRUE)]
+                                ELSE [s.cache EXCEPT !.queued = Q(r.res # "ok")]]
+    [] a.act = "SyncSetCache"      -> [s EXCEPT !.cache.set = api_.set, !.cache.queued = Q(TRUE)]      \* the set handlers always enqueue
+    [] a.act = "SyncPodCache"      -> [s EXCEPT !.cache.pods = api_.pods,
+                                                !.cache.queued = Q(@ \/ \E o \in Ords : PodEventEnq(s.cache.pods[o], api_.pods[o]))]
+    [] a.act = "SyncPvcCache"      -> [s EXCEPT !.cache.pvcs = api_.pvcs]
     [] a.act = "PodRunning"        -> [s EXCEPT !.api.pods[a.o].phase = "Running"]
     [] a.act = "PodReady"          -> [s EXCEPT !.api.pods[a.o].ready = TRUE]
     [] a.act = "FinishTerminating" -> [s EXCEPT !.api.pods[a.o] = Absent]
@@ -183,8 +204,10 @@ Effect(s, a) ==
     [] a.act = "Scramble"          -> LET q == a.pod
                                           p == IF q.present THEN [present |-> TRUE, phase |-> q.phase, ready |-> q.ready, term |-> q.term,
                                                                   rev |-> q.rev, owner |-> q.owner, uid |-> api_.clock]
-                                               ELSE Absent IN
-                                      [s EXCEPT !.api.pods[a.o] = p, !.cache.pods[a.o] = p, !.api.clock = @ + 1]
+                                               ELSE Absent
+                                          cl == IF a.claim THEN {ClaimOf(a.o)} ELSE {} IN
+                                      [s EXCEPT !.api.pods[a.o] = p, !.cache.pods[a.o] = p, !.api.clock = @ + 1,
+                                                !.api.pvcs = @ \cup cl, !.cache.pvcs = @ \cup cl]
     [] OTHER                       -> s
 
 \* who pays for what
@@ -212,13 +235,14 @@ FaultChoices ==
 Reconcile(fs)        == Do([act |-> "Reconcile", faults |-> fs])
 SyncSetCache         == Do([act |-> "SyncSetCache"])
 SyncPodCache         == Do([act |-> "SyncPodCache"])
+SyncPvcCache         == Do([act |-> "SyncPvcCache"])
 PodRunning(o)        == Do([act |-> "PodRunning", o |-> o])
 PodReady(o)          == Do([act |-> "PodReady", o |-> o])
 FinishTerminating(o) == Do([act |-> "FinishTerminating", o |-> o])
 Unpause              == Do([act |-> "Unpause"])
 
 Controller == \E fs \in FaultChoices : Reconcile(fs)
-Informers  == SyncSetCache \/ SyncPodCache
+Informers  == SyncSetCache \/ SyncPodCache \/ SyncPvcCache
 Kubelet    == \E o \in Ords : PodRunning(o) \/ PodReady(o) \/ FinishTerminating(o)
 Trouble    == \E o \in Ords : Do([act |-> "PodUnready", o |-> o]) \/ Do([act |-> "PodFail", o |-> o])
 User       == \/ \E r \in 0..MaxRep : Do([act |-> "SetReplicas", r |-> r])
@@ -238,7 +262,9 @@ Scramble(o) == /\ lvl = o /\ o <= MaxOrd
                /\ \E p \in PodStates(api.revs) :
                      /\ GoodPod(p)
                      /\ (p.phase = "Failed" => o \in Desired(api.set.replicas, api.set.slots))   \* the fairness premise of C02
-                     /\ LET a == [act |-> "Scramble", o |-> o, pod |-> p] s2 == Effect(Here, a) IN
+                     \* a pod of a set with a claim template has its claim; the claim of an absent pod may be left from earlier
+                     /\ \E cl \in (IF api.set.nclaims = 0 THEN {FALSE} ELSE IF p.present THEN {TRUE} ELSE BOOLEAN) :
+                        LET a == [act |-> "Scramble", o |-> o, pod |-> p, claim |-> cl] s2 == Effect(Here, a) IN
                         api' = s2.api /\ cache' = s2.cache /\ last' = a
                /\ lvl' = lvl + 1 /\ UNCHANGED budget
 
@@ -248,12 +274,12 @@ Scramble(o) == /\ lvl = o /\ o <= MaxOrd
 
 InitSets(rs) ==
   [replicas : 0..MaxRep, slots : SUBSET Ords, policy : Policies, strat : Strats, part : 0..1, tmpl : Tmpls, paused : {FALSE},
-   deleting : {FALSE}, histLimit : {1}, gen : {1}, rv : {1},
+   deleting : {FALSE}, histLimit : {1}, gen : {1}, rv : {1}, nclaims : ClaimCounts,
    status : [obsGen : {0}, replicas : {0}, ready : {0}, current : {0}, updated : {0}, collisions : {0},
              curRev : IF rs = <<>> THEN {""} ELSE {"", rs[1].name}, updRev : IF rs = <<>> THEN {""} ELSE {"", rs[Len(rs)].name}]]
 
 BlankSet == [replicas |-> 0, slots |-> {}, policy |-> "OrderedReady", strat |-> "RollingUpdate", part |-> 0, tmpl |-> "t0", paused |-> FALSE,
-             deleting |-> FALSE, histLimit |-> 1, gen |-> 1, rv |-> 1,
+             deleting |-> FALSE, histLimit |-> 1, gen |-> 1, rv |-> 1, nclaims |-> 0,
              status |-> [obsGen |-> 0, replicas |-> 0, ready |-> 0, current |-> 0, updated |-> 0, collisions |-> 0, curRev |-> "", updRev |-> ""]]
 GoodSet(s) == (s.strat = "OnDelete" => s.part = 0) /\ Desired(s.replicas, s.slots) \subseteq Ords    \* no ordinals beyond MaxOrd
 
@@ -267,10 +293,10 @@ MigratedSets(rs) == {s \in InitSets(rs) : /\ rs # <<>> /\ s.tmpl = rs[Len(rs)].t
                                               \/ (s.status.curRev = "" /\ s.status.updRev = ""))}
 
 Init == /\ IF InitMode = "empty"
-           THEN \E s \in InitSets(<<>>) : GoodSet(s) /\ api = [set |-> s, pods |-> [o \in Ords |-> Absent], revs |-> <<>>, clock |-> 10]
-                                                    /\ cache = [set |-> s, pods |-> [o \in Ords |-> Absent]]
-           ELSE /\ api = [set |-> BlankSet, pods |-> [o \in Ords |-> Absent], revs |-> <<>>, clock |-> 10]
-                /\ cache = [set |-> BlankSet, pods |-> [o \in Ords |-> Absent]]
+           THEN \E s \in InitSets(<<>>) : GoodSet(s) /\ api = [set |-> s, pods |-> [o \in Ords |-> Absent], revs |-> <<>>, pvcs |-> {}, clock |-> 10]
+                                                    /\ cache = [set |-> s, pods |-> [o \in Ords |-> Absent], pvcs |-> {}, queued |-> Q(TRUE)]
+           ELSE /\ api = [set |-> BlankSet, pods |-> [o \in Ords |-> Absent], revs |-> <<>>, pvcs |-> {}, clock |-> 10]
+                /\ cache = [set |-> BlankSet, pods |-> [o \in Ords |-> Absent], pvcs |-> {}, queued |-> FALSE]
         /\ budget = [edits |-> Edits, faults |-> Faults, fails |-> Fails]
         /\ last = [act |-> "Init"]
         /\ lvl = IF InitMode = "empty" THEN MaxOrd + 1 ELSE -1
@@ -278,7 +304,7 @@ Init == /\ IF InitMode = "empty"
 Setup == /\ lvl = -1
          /\ \E rs \in InitRevs : \E s \in (IF Migrating THEN MigratedSets(rs) ELSE InitSets(rs)) :
                /\ GoodSet(s)
-               /\ api' = [api EXCEPT !.set = s, !.revs = rs] /\ cache' = [cache EXCEPT !.set = s]
+               /\ api' = [api EXCEPT !.set = s, !.revs = rs] /\ cache' = [cache EXCEPT !.set = s, !.queued = Q(TRUE)]
                /\ last' = [act |-> "Setup", set |-> s, revs |-> rs]
          /\ lvl' = 0 /\ UNCHANGED budget
 
@@ -304,7 +330,7 @@ PodsRightS(s) ==
   /\ \A o \in DesiredOf(s) : LET p == a.pods[o] IN
         /\ p.phase = "Running" /\ p.ready /\ ~p.term /\ p.owner = "self"
         /\ (a.set.strat = "RollingUpdate" /\ o >= a.set.part) => TmplOfRevS(s, p.rev) = a.set.tmpl
-CaughtUpS(s) == SameSet(s.cache.set, s.api.set) /\ s.cache.set.rv = s.api.set.rv /\ s.cache.pods = s.api.pods
+CaughtUpS(s) == SameSet(s.cache.set, s.api.set) /\ s.cache.set.rv = s.api.set.rv /\ s.cache.pods = s.api.pods /\ s.cache.pvcs = s.api.pvcs
 NoWritesS(s) == LET r == Sync(SnapS(s, <<>>)) IN r.res = "ok" /\ \A k \in 1..Len(r.calls) : ~IsWrite(r.calls[k])
 
 \* the fixed point of C02: the pods are right, the caches have caught up, and a reconcile has nothing left to write
@@ -370,13 +396,27 @@ NoCollateralDelete ==
 
 \* C02: convergence, under the premise that the user stops, faults stop, caches catch up and the kubelet makes progress
 Fairness == /\ WF_vars(Setup) /\ \A o \in Ords : WF_vars(Scramble(o))
-            /\ WF_vars(Reconcile(<<>>)) /\ WF_vars(SyncSetCache) /\ WF_vars(SyncPodCache) /\ WF_vars(Unpause)
+            /\ WF_vars(Reconcile(<<>>)) /\ WF_vars(SyncSetCache) /\ WF_vars(SyncPodCache) /\ WF_vars(SyncPvcCache) /\ WF_vars(Unpause)
             /\ \A o \in Ords : WF_vars(PodRunning(o)) /\ WF_vars(PodReady(o)) /\ WF_vars(FinishTerminating(o)) /\ WF_vars(GCOrphanPod(o))
             /\ \A k \in 1..4 : WF_vars(GCOrphanRev(k))
 Spec == Init /\ [][Next]_vars /\ Fairness
 \* the excluded case: a pod that can never become Ready and that the controller is not obliged to replace
 Stuck == \E o \in Ords : <>[](api.pods[o].present /\ api.pods[o].phase = "Failed" /\ o \notin DesiredOf(Here))
 Converges == <>[]Converged \/ Stuck
+
+\* C16 end to end: with reconciles driven by the work queue alone the system still converges (Converges), and the queue
+\* drains - no wake-up is lost and none is manufactured for ever
+QueueDrains == <>[](~cache.queued)
+
+\* C06 (history): a pod the controller creates finds its claim in place (created before it), claims are created once
+\* and never removed - so an ordinal that is scaled in and later scaled out again gets the claims it left behind
+ClaimsKeptStep(s, t)  == s.api.pvcs \subseteq t.api.pvcs
+ClaimsFirstStep(s, t) == s.cache.set.nclaims = 1 =>
+   \A o \in Ords : (t.api.pods[o].present /\ (~s.api.pods[o].present \/ s.api.pods[o].uid # t.api.pods[o].uid)) => ClaimOf(o) \in t.api.pvcs
+ClaimsKept  == [][ClaimsKeptStep(Here, [api |-> api', cache |-> cache'])]_vars
+ClaimsFirst == [][last'.act = "Reconcile" => ClaimsFirstStep(Here, [api |-> api', cache |-> cache'])]_vars
+\* the claims that exist are claims of this set's ordinals, and a cache never shows a claim the API does not have
+ClaimsSane  == api.pvcs \subseteq {ClaimOf(o) : o \in Ords} /\ cache.pvcs \subseteq api.pvcs /\ (api.set.nclaims = 0 => api.pvcs = {})
 
 \* C18: after a migration no reconcile adds a revision (the update revision resolves to the built-in one) or takes a pod
 \* of the old set away unless the rollout the built-in controller had begun calls for it; everything ends up adopted
